@@ -11,6 +11,8 @@ def fake_kill(pid, sig):
     import errno
     if sig != 0:
         raise RuntimeError('replay: pidfile code sent a real signal')
+    if pid < 0:
+        return          # kill(-1, 0) / kill(-pgid, 0): "some process in that group / any process" exists
     if pid not in LIVE:
         raise OSError(errno.ESRCH, 'No such process')
 
@@ -27,7 +29,7 @@ def says(content):
 
 
 class _Pid(object):
-    contents = [None, '', '\n', 'abc', '12x', '0', '-7', '4242', '4242\n', ' 4242 ', '5555\n', '7777\n', '99999999999\n']
+    contents = [None, '', '\n', 'abc', '12x', '0', '-7', '-1', ' -1 ', '4242', '4242\n', ' 4242 ', '5555\n', '7777\n', '99999999999\n']
 
     def from_model(self, m):
         return []
